@@ -50,13 +50,13 @@ HARNESS_BIN = "c14"
 NCASES = {"quick": 9000, "thorough": 200000}
 CASE_TIMEOUT = {"quick": 30, "thorough": 120}
 
-LEVEL_TEXT = ("Machine-checked Coq theorems (45 pinned): every NumOrd / AbsOrd body of the integer, float and rational crates (transcribed branch "
+LEVEL_TEXT = ("Machine-checked Coq theorems (51 pinned): every NumOrd / AbsOrd body of the integer, float and rational crates (transcribed branch "
               "by branch: NaN/zero tests, sign filter, infinities, bit-length or log2-estimate filter, exact comparison after scaling) returns "
               "the order of the exact values, for all operands and for EVERY estimator that satisfies the soundness contract; the f32 "
               "arithmetic of the library's own estimators (EstimatedLog2::log2_bounds of the unsigned integers, rationals and floats, "
               "Repr::digits_ub; transcribed on Flocq's IEEE binary32) is PROVED to satisfy that contract modulo one assumption on libm "
               "(f32::log2 of an integer up to 2^24 is within one f32 step of the exact value), so the bodies run with the library's "
-              "estimators return the exact order (integer parts within a double word, any exponent); the NumHash inputs of integers, "
+              "estimators return the exact order (integers of any size incl. the multi-word estimator log2_bounds_large, any exponent); the NumHash inputs of integers, "
               "floats, rationals (denominators that are multiples of 2^127-1 included) and of the primitives (num-order's own code, "
               "transcribed) equal one function of the exact value. The transcriptions are tied to the code by a correspondence run "
               "judged against the extracted specification, including the bit patterns of log2_bounds.")
@@ -64,7 +64,8 @@ LEVEL_NOTE = ("Trusted: Coq kernel, Flocq's definition of binary32, extraction +
               "and of the estimators (compared on every run incl. the f32 bit patterns, asis=same/diff histogram; constants regenerated "
               "from the sources, C14_log2_params_tie). ASSUMED about libm: lg_contract (one-step accuracy of f32::log2 on integers in "
               "[1, 2^24]; satisfiable: C14_libm_contract_inhabited; checked in double precision for every value the run reports). The "
-              "multi-word estimator log2_bounds_large is modelled and compared, its enclosure is proved only in C12's real-number model; "
+              "error analysis of the two ADJUST products of log2_bounds_large is imported from C12 (Int/GrlLog2StdProof.v large_lower / "
+              "large_upper); AbsOrd / same-base Ord with the raw digits_ub are proved for significands within a double word; "
               "next_up/next_down are modelled by Flocq's Bsucc/Bpred (the bit trick itself is compared, not proved).")
 TECHNIQUE = "Coq proof of the transcribed comparison/hash bodies and of the f32 estimators (Flocq binary32) against exact-value specifications + extracted-spec correspondence run"
 RULE = ("cases = {ord, abs, hash, cmp, est, ordf, absf, cmpf} x every implemented (left type, right type) pair of UBig, IBig, u8..u128/usize, "
@@ -93,7 +94,7 @@ TRUSTED_BASE = [
 ]
 ASSUMPTIONS = [
     "libm: f32::log2 of an integer n in [1, 2^24] is finite and its two f32 neighbours enclose log2 n (XLog2Flocq.lg_contract); everything around it in log2_bounds / digits_ub is proved; the general theorems hold for every sound estimator",
-    "the f32-estimator instance is proved for integer parts (integers, significands, numerators, denominators) below 2^(2*word bits) and exponents within the isize range; larger integer parts use log2_bounds_large, which is transcribed and compared bit for bit but whose enclosure is proved only in C12's real-number model",
+    "the f32-estimator instance for NumOrd (C14_num_ord_f32_any) covers integer parts of bit length below 2^62 (word size 32..64) and exponents within the isize range; the AbsOrd / same-base instance (digits_ub) covers integer parts below 2^(2*word bits)",
     "rationals have positive denominators, float bases are >= 2; exponent arithmetic is unbounded (Z) in the comparison models - the two places where the code left the isize range were repaired (F05, F06) and exponents up to +-(2^63-1) are generated; isize::MIN itself is not (hlib::isz cannot carry it)",
     "exact-path scaling by B^|e| is exercised up to |e| = 10^6 in every base and up to 2*10^7 in the bases 2 and 16 (beyond that the generator keeps the operands far enough apart for the filters to decide, as the real code would otherwise try to allocate the power); the theorems have no such bound",
     "NumHash of infinities and NaN is outside the property (no exact value); num-order's answers for them are compared with the transcription only",
